@@ -35,6 +35,12 @@ type qcfg struct {
 	early   bool     // the inbound frames are readable before Upgrade is called
 	direct  bool     // BlockingModAsyncWrite=false: same Upgrade path, frames written under the mutex by the caller
 	p       int
+	// compression dimension (zqueue.go): permessage-deflate negotiated through the real Upgrade
+	// (Upgrader.EnableCompression + the extension header of the request), scripts 'x' 'p' 'B'
+	z     bool
+	level int  // Upgrader.SetCompressionLevel
+	big   zBig // the message behind script letter 'B'
+	after bool // the main thread writes one more small message once everything has drained
 }
 
 func (c qcfg) name() string {
@@ -42,8 +48,12 @@ func (c qcfg) name() string {
 	if c.direct {
 		mode = "blocking-direct"
 	}
-	return fmt.Sprintf(mode+" F=%d writers=%s qmax=%d failAt=%d close=%s inbound=%d echo=%v early=%v",
+	s := fmt.Sprintf(mode+" F=%d writers=%s qmax=%d failAt=%d close=%s inbound=%d echo=%v early=%v",
 		c.f, strings.Join(c.writers, ","), c.qmax, c.failAt, c.closeBy, c.inbound, c.echo, c.early)
+	if c.z {
+		s += fmt.Sprintf(" deflate=L%d B=%s%d after=%v", c.level, c.big.class, c.big.n, c.after)
+	}
+	return s
 }
 
 type hijackRW struct {
@@ -58,7 +68,15 @@ func (h *hijackRW) Hijack() (net.Conn, *bufio.ReadWriter, error) {
 	return h.conn, nil, nil
 }
 
-func upgradeRequest() *http.Request {
+func upgradeRequest(deflate bool) *http.Request {
+	r := upgradeRequestPlain()
+	if deflate {
+		r.Header.Set("Sec-WebSocket-Extensions", "permessage-deflate; client_max_window_bits")
+	}
+	return r
+}
+
+func upgradeRequestPlain() *http.Request {
 	r, _ := http.NewRequest("GET", "http://h/ws", nil)
 	r.Header.Set("Connection", "Upgrade")
 	r.Header.Set("Upgrade", "websocket")
@@ -110,7 +128,7 @@ func install(u *websocket.Upgrader, w *world, l *cbLog, onMsg func(c *websocket.
 
 func queuedBody(c qcfg) func() {
 	return func() {
-		w := &world{}
+		w := &world{z: c.z}
 		tr := track.New(track.Pooled)
 		mempool.DefaultMemPool = tr
 		eng := nbhttp.NewEngine(nbhttp.Config{Name: "c14c", NPoller: 1, MaxWebsocketFramePayloadSize: c.f,
@@ -124,6 +142,13 @@ func queuedBody(c qcfg) func() {
 		u.BlockingModSendQueueInitSize = 1
 		u.BlockingModSendQueueMaxSize = uint16(c.qmax)
 		u.BlockingModReadBufferSize = 64
+		if c.z {
+			u.EnableCompression(true)
+			if err := u.SetCompressionLevel(c.level); err != nil {
+				vsched.Fail("harness|SetCompressionLevel(%d): %v", c.level, err)
+				return
+			}
+		}
 		fc := &fakeConn{w: w, tr: tr, failAt: c.failAt}
 		l := &cbLog{w: w}
 		var msgs []*outMsg
@@ -149,7 +174,7 @@ func queuedBody(c qcfg) func() {
 			}
 		}
 
-		wsc, err := u.Upgrade(&hijackRW{conn: fc, h: http.Header{}}, upgradeRequest(), nil)
+		wsc, err := u.Upgrade(&hijackRW{conn: fc, h: http.Header{}}, upgradeRequest(c.z), nil)
 		if err != nil {
 			vsched.Fail("harness|Upgrade over the fake conn failed: %v", err)
 			return
@@ -164,11 +189,19 @@ func queuedBody(c qcfg) func() {
 		if !strings.HasPrefix(string(fc.handshake), "HTTP/1.1 101 ") {
 			w.failf("handshake-response|Upgrade wrote %q instead of a 101 response", short(fc.handshake))
 		}
+		if c.z && !strings.Contains(string(fc.handshake), "Sec-WebSocket-Extensions: permessage-deflate") {
+			vsched.Fail("harness|compression was requested and enabled, but the 101 response does not accept permessage-deflate: %q", fc.handshake)
+			return
+		}
 		if len(l.openEnd) != 1 || l.openEnd[0] > upgraded {
 			w.failf("open-not-before-upgrade-returned|Upgrade returned at t=%d, OnOpen calls completed: %v", upgraded, l.openEnd)
 		}
 
 		for i, s := range c.writers {
+			if c.z {
+				startWriterMsgs(w, wsc, i, zScriptMsgs(c, i, s), c.f, &msgs, &inCall, nil)
+				continue
+			}
 			if strings.Contains(s, "c") {
 				// a writer that closes the connection after its messages
 				i, s := i, strings.ReplaceAll(s, "c", "")
@@ -215,20 +248,32 @@ func queuedBody(c qcfg) func() {
 			}
 		}
 		// a message refused with "queue full" must not leave a part of itself on the wire
-		for _, m := range msgs {
-			if m.err != nil && errors.Is(m.err, websocket.ErrMessageSendQuqueIsFull) {
-				cnt := 0
-				for _, wr := range fc.writes {
-					if ownsWrite(m, wr) {
-						cnt++
+		unowned := 0
+		queueFullCheck := func() {
+			if c.z {
+				unowned = attributeWrites(fc, msgs, c.f)
+			}
+			for _, m := range msgs {
+				if m.err != nil && errors.Is(m.err, websocket.ErrMessageSendQuqueIsFull) {
+					cnt := 0
+					for _, wr := range fc.writes {
+						if ownsWrite(m, wr) {
+							cnt++
+						}
 					}
-				}
-				if cnt > 0 {
-					w.failf("queue-full-partial-message-on-wire|WriteMessage of %s (%d bytes, %d-byte frames) returned ErrMessageSendQuqueIsFull, but %d of its frames were queued before the limit was hit and went out: the peer sees an unfinished fragmented message followed by other frames; wire=%s",
-						m.id, len(m.payload), c.f, cnt, wireOf(fc))
+					if cnt > 0 {
+						how := ""
+						if c.z {
+							how = fmt.Sprintf(" (permessage-deflate level %d: %d bytes = %d frames after deflate, %d frames by the uncompressed length)",
+								c.level, len(m.wireBody()), framesFor(len(m.wireBody()), c.f), framesFor(len(m.payload), c.f))
+						}
+						w.failf("queue-full-partial-message-on-wire|WriteMessage of %s (%d bytes, %d-byte frames)%s returned ErrMessageSendQuqueIsFull, but %d of its frames were queued before the limit was hit and went out: the peer sees an unfinished fragmented message followed by other frames; wire=%s",
+							m.id, len(m.payload), c.f, how, cnt, wireOf(fc))
+					}
 				}
 			}
 		}
+		queueFullCheck()
 		if quiet {
 			if fc.closed || len(l.closes) > 0 {
 				w.failf("closed-unprovoked|nobody closed the connection, yet it is closed (conn closed=%v, OnClose calls=%d)", fc.closed, len(l.closes))
@@ -243,17 +288,42 @@ func queuedBody(c qcfg) func() {
 					w.failf("write-error|writing %s on an open connection failed: %v", m.id, m.err)
 				}
 			}
-			// after a queue-full refusal in the middle of a message the wire is judged by the
-			// dedicated check above; everything else must be whole and complete
-			if !full {
-				judgeWire(w, fc.wire(), msgs, true, false, c.name()+" at quiescence, connection open")
-			} else {
+			// a queue-full refusal in the middle of a message is named by the dedicated check above
+			// (the first failure is the verdict); in every case the wire must be whole and complete:
+			// a refused message is simply absent
+			if full {
 				for _, m := range msgs {
 					if m.ret != 0 && m.err == nil && countWhole(fc, m) == 0 {
 						w.failf("wire-lost|message %s was accepted (nil error) while another was refused with queue-full, the connection is open, but %s is not on the wire; wire=%s", m.id, m.id, wireOf(fc))
 					}
 				}
 			}
+			judgeWire(w, fc.wire(), msgs, true, false, c.name()+" at quiescence, connection open")
+		}
+
+		// ---- phase 1b: everything has drained; the next message must find a usable connection
+		followUp := 0
+		if c.after && quiet {
+			m := zAfterMsg(c)
+			msgs = append(msgs, m)
+			m.call = w.tick()
+			m.err = wsc.WriteMessage(websocket.BinaryMessage, m.payload)
+			m.ret = w.tick()
+			vsched.WaitIdle()
+			queueFullCheck()
+			switch {
+			case m.err == nil:
+				followUp = 1
+			case c.qmax > 0 && errors.Is(m.err, websocket.ErrMessageSendQuqueIsFull):
+				// refusing is the caller's to handle, not a loss (counted; the scenario is only
+				// non-trivial when the follow-up was accepted in some execution)
+			default:
+				w.failf("write-error|writing %s on an open, idle connection failed: %v", m.id, m.err)
+			}
+			if fc.closed || len(l.closes) > 0 {
+				w.failf("closed-unprovoked|nobody closed the connection, yet it is closed after the follow-up message (conn closed=%v, OnClose calls=%d)", fc.closed, len(l.closes))
+			}
+			judgeWire(w, fc.wire(), msgs, true, false, c.name()+" after the follow-up message, connection open")
 		}
 
 		// ---- phase 2: end the connection if the scenario has not done so, let the delay elapse
@@ -266,6 +336,9 @@ func queuedBody(c qcfg) func() {
 		}
 		vsched.WaitIdle()
 
+		if c.z {
+			unowned = attributeWrites(fc, msgs, c.f)
+		}
 		res := judgeWire(w, fc.wire(), msgs, false, true, c.name()+" at the end")
 		if c.direct && res.v != nil {
 			// direct mode: nil means every frame was handed to the conn before the call returned
@@ -300,10 +373,39 @@ func queuedBody(c qcfg) func() {
 			w.failf("ownership %s|%s (send queue / drainer / CloseAndClean; belongs to C11 as well)", v[0].Sig, v[0].Desc)
 		}
 		w.logFailure()
+		if c.z && unowned > 0 {
+			// last: only the verdict when nothing more specific fired
+			w.failf("wire-unattributed-frame|%d frames on the wire are not the next frame of any message written, going by the reference deflate form of the payloads cut into %d-byte frames; wire=%s", unowned, c.f, wireOf(fc))
+		}
 
 		cnt := map[string]int{"messages_delivered": len(l.msgs), "late_write_calls_on_closed_conn": fc.lateWrites}
 		if res.v != nil {
 			cnt["messages_on_wire"] = len(res.v.Events)
+		}
+		if c.z {
+			cnt["z_followup_accepted"] = followUp
+			cnt["z_executions"] = 1
+			for i := range res.frames {
+				if res.frames[i].Rsv1 {
+					cnt["z_compressed_messages_on_wire"]++
+				}
+			}
+			for _, m := range msgs {
+				if len(m.payload) <= zSmallLen || m.kind != 'M' {
+					continue
+				}
+				fu, fcn := framesFor(len(m.payload), c.f), framesFor(len(m.wireBody()), c.f)
+				switch {
+				case m.err != nil && errors.Is(m.err, websocket.ErrMessageSendQuqueIsFull):
+					cnt["z_big_refused"]++
+				case m.err == nil && res.count[m.id] > 0 && fcn > fu:
+					cnt["z_big_on_wire_more_frames_than_uncompressed"]++
+				case m.err == nil && res.count[m.id] > 0 && fcn < fu:
+					cnt["z_big_on_wire_fewer_frames_than_uncompressed"]++
+				case m.err == nil && res.count[m.id] > 0:
+					cnt["z_big_on_wire_same_frames"]++
+				}
+			}
 		}
 		cnt["interleave_opportunities"] = interleaveOpportunities(fc, msgs)
 		// drainer hand-over: one drainer goroutine wrote frames of more than one message
@@ -365,7 +467,7 @@ func countWhole(fc *fakeConn, m *outMsg) int {
 	}
 	n := 0
 	var acc []byte
-	in := false
+	in, deflated := false, false
 	for i := range fr {
 		f := &fr[i]
 		if f.IsControl() {
@@ -375,12 +477,18 @@ func countWhole(fc *fakeConn, m *outMsg) int {
 			continue
 		}
 		if f.Op != wsgen.OpCont {
-			acc, in = nil, true
+			acc, in, deflated = nil, true, f.Rsv1
 		}
 		if in {
 			acc = append(acc, f.Payload...)
 			if f.Fin {
-				if m.kind != 'P' && string(acc) == string(m.payload) {
+				body := acc
+				if deflated { // RFC 7692: RSV1 on the first frame marks a deflated message
+					if b, err := wsgen.Inflate(acc, 0); err == nil {
+						body = b
+					}
+				}
+				if m.kind != 'P' && string(body) == string(m.payload) {
 					n++
 				}
 				in = false
